@@ -329,6 +329,11 @@ func c14DiffCase(c *mon.Ctx, s cliShape, bin Binary, a, b any) {
 	}
 	stdin := ""
 	files := map[string]string{"a.in": aText, "b.in": bText}
+	if s.out && s.stdin {
+		// the output file already exists and is longer than anything jd will write
+		files["out.txt"] = strings.Repeat("previous contents of the output file\n", 400)
+		c.Feature("-o_onto_existing_longer_file")
+	}
 	if s.stdin {
 		args = append(args, "a.in")
 		stdin = bText
@@ -408,7 +413,12 @@ func c14PatchCase(c *mon.Ctx, s cliShape, bin Binary, a, b any) {
 	} else {
 		args = append(args, "p.in", "a.in")
 	}
-	res := RunCLI(c, bin, args, stdin, map[string]string{"p.in": patchText, "a.in": aText})
+	pfiles := map[string]string{"p.in": patchText, "a.in": aText}
+	if s.out && !s.stdin {
+		pfiles["out.txt"] = strings.Repeat("previous contents of the output file\n", 400)
+		c.Feature("-o_onto_existing_longer_file")
+	}
+	res := RunCLI(c, bin, args, stdin, pfiles)
 	c.Feature("cli_runs")
 	c.Feature("patch_mode_runs")
 	c.Feature("bin:" + bin.Name)
@@ -487,7 +497,7 @@ func init() {
 		Rule: "process runs of the three binaries (v2/jd, jd, jd -v2=false): every combination of {-set,-mset,-setkeys,-set -setkeys} x -yaml x -color x -precision x -f {none,jd,patch,merge} x -o x {file,stdin} (640 diff-mode shapes, 320 patch-mode shapes) x a panel of document pairs, translate modes, -git-diff-driver and error cases; " +
 			"each run is compared with a CLI model that maps the flags to the documented library calls: exit status, stdout bytes, -o file bytes (stdout empty), stdin vs file; the patch-mode leg feeds the library's diff to `jd -p` and requires the output to equal the library rendering and to reproduce b; " +
 			"non-trivial = every run; distinct = distinct (shape, binary, inputs)",
-		Floors: map[string]int{"cli_runs": 5000, "status_0": 500, "status_1": 500, "status_2": 200, "with_-o": 1000, "second_input_from_stdin": 1000, "colour_output": 300, "patch_mode_runs": 1000,
+		Floors: map[string]int{"cli_runs": 5000, "status_0": 500, "status_1": 500, "status_2": 200, "with_-o": 1000, "-o_onto_existing_longer_file": 500, "second_input_from_stdin": 1000, "colour_output": 300, "patch_mode_runs": 1000,
 			"pipeline_reproduces_b:jd": 300, "pipeline_reproduces_b:patch": 50, "pipeline_reproduces_b:merge": 50, "pipeline_yaml": 200, "translate_runs": 120, "git_diff_driver_runs": 15, "error_cases": 200},
 		Assumptions: []string{
 			"the CLI model (props/c14.go modelDiff / modelPatch) encodes the documented mapping: flags -> options, -f -> renderer / reader, status 0 no difference / 1 difference / 2 error",
